@@ -634,14 +634,15 @@ Qed.
 
 (* ---------------------------------------------------------------- the theorems *)
 Theorem cache_partial : forall pc h sched,
-  bus_history (scfg pc) h = true ->
+  bus_history (scfg pc) h = true -> ~ Known_C31 pc h sched ->
   let x := crun pc h sched in
-  w_lost (cw x) = false ->
   (c_ready x <> Some true -> forall p, cached x p = None) /\
   (caught_up x -> forall p, cached x p = spec_cache pc (received x h) p) /\
   (c_ready x = Some true -> spec_ready pc (received x h) = Some true).
 Proof.
-  intros pc h sched Hb x Hl.
+  intros pc h sched Hb Hk x.
+  assert (Hl : w_lost (cw x) = false).
+  { destruct (w_lost (cw x)) eqn:E; [exfalso; apply Hk; exact E|reflexivity]. }
   unfold bus_history in Hb. apply andb_true_iff in Hb. destruct Hb as [Hst Hb].
   assert (Hown : c_dest (scfg pc) = DWell -> owners_ok_from 0 h = true).
   { intro Hd. rewrite Hd in Hb. apply andb_true_iff in Hb. tauto. }
